@@ -38,6 +38,7 @@ func init() {
 			ruleLcLp(c, r, "")
 			ruleCoderStates(c, r, "")
 			ruleProbModel(c, r, "")
+			ruleRangeCoder(c, r, "")
 			ruleStateFormulas(c, r, "")
 			ruleCodecGeometry(c, r, "")
 			rulePropsCode(c, r, "")
@@ -79,6 +80,7 @@ func init() {
 			ruleReaderWindow(c, r, "")
 			ruleCoderStates(c, r, "")
 			ruleProbModel(c, r, "")
+			ruleRangeCoder(c, r, "")
 			ruleStateFormulas(c, r, "")
 			ruleCodecGeometry(c, r, "")
 			rulePropsCode(c, r, "")
@@ -121,6 +123,7 @@ func init() {
 		run: func(c *Ctx, r *Report) {
 			ruleCoderStates(c, r, "")
 			ruleProbModel(c, r, "")
+			ruleRangeCoder(c, r, "")
 			ruleStateFormulas(c, r, "")
 			ruleCodecGeometry(c, r, "")
 			ruleSpecConstants(c, r, "")
